@@ -49,6 +49,11 @@ func (k *KeepAlive) sendKeepAlive() {
 		bytes, _ := ioutil.ReadAll(buffer)
 		bytes = FixProtocolSpecifier(bytes)
 		log.Debug.Printf("Keep alive %s <- %s", conn.RemoteAddr(), string(bytes))
+		if con, ok := conn.(*Connection); ok {
+			// not in the middle of a response which is being written on that connection
+			con.WriteMessage(bytes)
+			continue
+		}
 		conn.Write(bytes)
 	}
 }
